@@ -17,6 +17,7 @@ mod apis7;
 mod apis8;
 mod apis9;
 mod apis10;
+mod apis11;
 
 fn main() {
     std::panic::set_hook(Box::new(|_| {}));
